@@ -293,6 +293,18 @@ def build_opts(alg, opts):
     for k in ("copies", "weights"):
         if alg == "ilp" and opts.get(k) is not None:
             kw[k] = opts[k]
+    if alg == "ilp" and opts.get("time_limit") is not None:
+        kw["time_limit"] = opts["time_limit"]
+    if alg == "ilp" and opts.get("constraint") is not None:
+        kind, c = opts["constraint"]
+        if kind == "min==":
+            kw["additional_constraints"] = lambda sums, _c=c: [sums[0] == _c]
+        elif kind == "max<=":
+            kw["additional_constraints"] = lambda sums, _c=c: [sums[-1] <= _c]
+        elif kind == "min>=":
+            kw["additional_constraints"] = lambda sums, _c=c: [sums[0] >= _c]
+        else:
+            raise env.HarnessError(f"unknown constraint {opts['constraint']}")
     return kw
 
 
